@@ -7,6 +7,8 @@ import (
 	"fmt"
 	"os"
 	"path/filepath"
+	"runtime/debug"
+	"strings"
 	"testing"
 
 	"github.com/gabriel-vasile/mimetype/internal/charset"
@@ -242,6 +244,44 @@ func TestVerif_C01(t *testing.T) {
 	}
 	if vfOnlySub("prefixes") {
 		c01Prefixes(t)
+	}
+	if t.Failed() {
+		return
+	}
+	if vfOnlySub("deep") && vfShard() < 4 {
+		// very deep nestings examined in full, under the runtime's default maximum stack: a
+		// recursion that grows with the input dies with a fatal error, and the journal names the case
+		shapes := []string{"[", "{\"k\":", "[{\"k\":", " [ "}
+		shape := shapes[vfShard()%len(shapes)]
+		old := debug.SetMaxStack(128 << 20)
+		defer debug.SetMaxStack(old)
+		for _, depth := range []int{200000, 1000000} {
+			x := []byte(strings.Repeat(shape, depth))
+			for _, lim := range []uint32{0, 0xffffffff} {
+				c := c01Case{X: x, Limit: lim}
+				vfJournal("C01", "deep", map[string]any{"shape": shape, "depth": depth, "limit": lim})
+				SetLimit(lim)
+				m := Detect(x)
+				mr, err := m, error(nil)
+				if lim == 0 { // DetectReader allocates `limit` bytes by design; only the unlimited case is run
+					mr, err = DetectReader(bytes.NewReader(x))
+				}
+				SetLimit(defaultLimit)
+				var r vfResult
+				r.Nontrivial = true
+				r.Labels = []string{"deep-nesting"}
+				r.Hash = vfHash([]byte(shape), vfHashU(uint64(depth), uint64(lim)))
+				if m == nil || mr == nil || err != nil {
+					r.Err = fmt.Errorf("deep nesting %q x %d at limit %d: Detect=%v DetectReader=(%v,%v)", shape, depth, lim, m, mr, err)
+				}
+				vfStats.record(r, func() any { return map[string]any{"sub": "deep", "shape": shape, "depth": depth, "limit": lim} })
+				if r.Err != nil {
+					vfEnumFail(t, "C01", "deep", c01Case{X: c.X[:64], Limit: lim}, r.Err)
+					return
+				}
+			}
+		}
+		vfStats.Subchecks["deep"] = "nestings of 200000 and 1000000 levels under a 128 MiB maximum stack ('[', '{\"k\":', '[{\"k\":', ' [ '; one shape per shard 0-3) at limits 0 and 2^32-1 through Detect and DetectReader"
 	}
 }
 
